@@ -52,9 +52,15 @@ WalkFrom == 21
 WalkEmitAt(N) == N >= WalkFrom /\ (N <= 400 \/ N % 8 = 0 \/ N = WalkMax)
 NextRow(r) == LET n == Len(r) IN TLCEval([i \in 1..(n + 1) |-> Add(IF i = 1 THEN <<>> ELSE r[i - 1], IF i = n + 1 THEN <<>> ELSE r[i])])
 Row7 == PascalRow(7)
-WalkInit == [N |-> 7, row |-> Row7, lag |-> PascalRow(0)]
+\* (half = row N div 2, for the central family Hyp(N, N/2, N/2) of even N, whose masses are C(N/2,k)^2 / C(N, N/2))
+WalkInit == [N |-> 7, row |-> Row7, lag |-> PascalRow(0), half |-> PascalRow(3)]
 WalkStep == /\ kind = "walk" /\ par.N < WalkMax /\ UNCHANGED <<kind, done>>
-            /\ par' = [N |-> par.N + 1, row |-> NextRow(par.row), lag |-> NextRow(par.lag)]
+            /\ par' = [N |-> par.N + 1, row |-> NextRow(par.row), lag |-> NextRow(par.lag),
+                       half |-> IF (par.N + 1) % 2 = 0 THEN NextRow(par.half) ELSE par.half]
+WalkCentral == LET h == par.N \div 2 IN TLCEval([i \in 1..(h + 1) |-> Mul(par.half[i], par.half[h - i + 2])])
+WalkCentralRec == LET N == par.N  h == N \div 2 IN
+   [kind |-> "hypergeometric", N |-> N, K |-> h, n |-> h, lo |-> 0, hi |-> h, den |-> par.row[h + 1], mass |-> WalkCentral,
+    meann |-> N, meand |-> 4, varn |-> N * N, vard |-> 16 * (N - 1)]
 \* C(K,k) C(N-K, n-k) for K = 7 (small = TRUE) or K = N - 7, k over the support
 WalkHyp(small, n) == LET N == par.N  K == IF small THEN 7 ELSE N - 7  lo == HypLo(N, K, n)  hi == HypHi(N, K, n) IN
    TLCEval([i \in 1..(hi - lo + 1) |-> LET k == lo + i - 1 IN
@@ -67,11 +73,13 @@ WalkCheck == (kind = "walk" /\ WalkEmitAt(par.N)) =>
    /\ SumB(par.row, par.N + 1) = Pow2(par.N)
    /\ \A sm \in {TRUE, FALSE} : LET n == IF sm THEN par.N \div 2 ELSE par.N \div 3 + 3  m == WalkHyp(sm, n) IN
          SumB(m, Len(m)) = par.row[n + 1]                                                   \* Vandermonde
+   /\ (par.N % 2 = 0) => SumB(WalkCentral, par.N \div 2 + 1) = par.row[par.N \div 2 + 1]
 WalkEmit == (kind = "walk" /\ WalkEmitAt(par.N)) =>
    /\ PrintT(ToJson([kind |-> "binomial", N |-> par.N, a |-> <<1>>, b |-> <<2>>, lo |-> 0, hi |-> par.N,
                      den |-> Pow2(par.N), mass |-> par.row]))
    /\ PrintT(ToJson(WalkHypRec(TRUE, par.N \div 2)))
    /\ PrintT(ToJson(WalkHypRec(FALSE, par.N \div 3 + 3)))
+   /\ (par.N % 2 = 0) => PrintT(ToJson(WalkCentralRec))
 
 Init == \/ kind \in {"binomial", "hypergeometric"} /\ par = Null /\ done = FALSE
         \/ WalkMax > 0 /\ kind = "walk" /\ par = WalkInit /\ done = FALSE
